@@ -135,6 +135,9 @@ def cases(tier, seed):
     for shape in DATA_SHAPES:
         for form in ("single", "compose", "sequence", "combine"):
             yield {"k": "shapes", "shape": shape, "form": form}
+    for form in ("combine-after-getter", "combine-on-record", "combine-in-sequence",
+                 "combine-in-combine"):
+        yield {"k": "shapes", "shape": "intermediate-pair-lookalike", "form": form}
     for exc in ("StopIteration", "KeyError", "IndexError"):
         for form in ("combine", "compose", "combine-in-compose", "combine-in-combine"):
             for n in (1, 2, 3):
@@ -795,6 +798,23 @@ def run_shapes(r, obs):
             out = list(lena.core.Sequence(pick, whole, after).run(iter([5])))
             res = out[0] if len(out) == 1 else None
             exp = expected3
+        elif form.startswith("combine-"):
+            # the pair-lookalike is the data a Combine receives: each of its getters gets it whole
+            first = lena.variables.Variable("first", lambda h: h[0], type="f")
+            second = lena.variables.Variable("second", lambda h: h[1], type="s")
+            comb = lena.variables.Combine(first, second)
+            record = ((5, 6), {"detector": "A"})
+            exp = ((5, 6), {"detector": "A"})
+            if form == "combine-after-getter":
+                res = lena.variables.Compose(pick, comb)(5)
+            elif form == "combine-on-record":
+                res = comb((record, {"i": 1}))
+            elif form == "combine-in-sequence":
+                out = list(lena.core.Sequence(pick, comb).run(iter([(5, {"i": 1})])))
+                res = out[0] if len(out) == 1 else None
+            else:
+                res = lena.variables.Combine(comb, second)((record, {"i": 1}))
+                exp = (exp, {"detector": "A"})
         else:
             res = lena.variables.Combine(lena.variables.Compose(pick, whole),
                                          lena.variables.Compose(pick, whole, after))(5)
@@ -992,3 +1012,5 @@ RULE += (' Added: tuple-valued attributes holding lists / dicts; after every app
          'context is walked for objects of the variable (identity, into tuples) and then changed in '
          'place at every level; getters that raise StopIteration / KeyError / IndexError for the '
          'datum in Combine / Compose (the application must fail).')
+RULE += (' Added: a 2-tuple with a dict second as the data a Combine receives (after a getter, '
+         'as a record with its own context, in a Sequence, in another Combine).')
